@@ -54,7 +54,12 @@ def check(repo: Repo, rep: Report) -> None:
         flags = names_assigned_const(outer, True)
         counters = [c for g in root.walk() if g.is_func for c in names_augmented(g, ast.Add)]
         groups = locals_by_init(root, lambda v: isinstance(v, ast.Call) and call_name(v) == "CompositeDisposable")
-        rep.require(bool(flags) and bool(counters or groups), f"{name}: stopped flag / active measure")
+        if not flags or not (counters or groups):
+            rep.ob("J1-completion-join", outer, f"{name}: keeps an outer-stopped flag and a measure of live inners", False,
+                   f"{name} does not keep {'a flag raised by the outer completion' if not flags else 'a count / group of live inners'}: "
+                   f"'completes once the outer and every inner completed' cannot be decided — the result never completes, or completes "
+                   f"while an inner is still live")
+            continue
         def count_pred(t, counters=counters, groups=groups, name=name):
             if name == "merge_":
                 return any(c in t for c in counters)
